@@ -1,9 +1,104 @@
 /-
-Helper lemmas for C10 (the invariant is defined in Async/Inv.lean; its preservation by events and
-by steps of the ready queue is proved in Async/LemmasEvents.lean and Async/LemmasSteps.lean).
+Helper lemmas for C10, part 4: what the invariant says about a state.  (The invariant is defined in
+Async/Inv.lean; Async/LemmasPost.lean, LemmasSteps.lean and LemmasEvents.lean prove that every
+hazard-free schedule preserves it.)
 -/
-import ParamVerif.Async.Inv
+import ParamVerif.Async.LemmasEvents
 
 namespace ParamVerif.Async
+
+theorem settled_iff (s : St) (t : Nat) (k : Kind) :
+    settled s t k = true ↔ ∀ i, i < k.nFuts → (s.futs (t, i)).isPending = false := by
+  simp [settled, List.all_eq_true]
+
+/-- a task that is neither finished nor cancelled has a step queued or waits for a pending future -/
+theorem inv_unfinished_pending (c : Cfg) (s : St) (h : Inv c s none) (hq : s.ready = []) (t : Nat) (x : Task)
+    (ht : s.tasks t = some x) (hs : settled s t x.kind = true) : x.pc.terminal = true := by
+  rw [settled_iff] at hs
+  have noq : ∀ e, e ∈ s.ready → False := by intro e he; rw [hq] at he; cases he
+  cases hpc : x.pc with
+  | finished => rfl
+  | cancelled => rfl
+  | start => exact (noq _ (h.start_queued t x ht hpc)).elim
+  | running => exact absurd ((h.running t x ht).1 hpc) (by simp)
+  | awaitCoro sv =>
+    have hk := h.kind_coro t x sv ht hpc
+    have := hs 0 (by rw [hk]; decide)
+    exact (noq _ (h.wake_queued t x (t, 0) ht (by rw [hpc]; rfl) this)).elim
+  | awaitOut =>
+    have hk := h.kind_coro' t x ht hpc
+    have := hs 0 (by rw [hk]; decide)
+    exact (noq _ (h.wake_queued t x (t, 0) ht (by rw [hpc]; rfl) this)).elim
+  | awaitGen k =>
+    have hk := h.kind_gen t x k ht hpc
+    cases hkind : x.kind with
+    | coro => exact absurd hkind hk.1
+    | agen n =>
+      have := hs k (by rw [hkind]; exact hk.2 n hkind)
+      exact (noq _ (h.wake_queued t x (t, k) ht (by rw [hpc]; rfl) this)).elim
+
+/-- latest wins, on a state satisfying the invariant -/
+theorem inv_latest_wins (c : Cfg) (s : St) (h : Inv c s none) (hq : s.ready = []) (p t : Nat) (x : Task)
+    (hl : s.last p = .task t) (ht : s.tasks t = some x) (hs : settled s t x.kind = true) (hn : 0 < x.kind.nFuts) :
+    s.futs (t, x.kind.nFuts - 1) = .done (s.vals p) := by
+  have hterm := inv_unfinished_pending c s h hq t x ht hs
+  have hll := h.last_live p t x hl ht
+  cases hpc : x.pc with
+  | finished =>
+    cases hkind : x.kind with
+    | coro => simpa [Kind.nFuts] using h.val_coro p t x hl ht hkind hpc
+    | agen n =>
+      have := h.val_gen' p t x n hl ht hkind hpc
+      rw [hkind] at hn
+      exact this hn
+  | cancelled => exact absurd hpc hll.2.2
+  | _ => rw [hpc] at hterm; cases hterm
+
+/-- plain assignment cancels for good, on a state satisfying the invariant -/
+theorem inv_plain (c : Cfg) (s : St) (h : Inv c s none) (p : Nat) (v : Int) (hl : s.last p = .plain v) :
+    s.vals p = v ∧ s.refs p = none ∧ s.asyncRefs p = none := by
+  refine ⟨h.val_plain p v hl, ?_, ?_⟩
+  · cases hr : s.refs p with
+    | none => rfl
+    | some t => have := (h.refs_last p t).1 hr; rw [hl] at this; cases this
+  · cases hr : s.asyncRefs p with
+    | none => rfl
+    | some t =>
+      cases ht : s.tasks t with
+      | none => exact absurd ht (h.reg_some p t hr)
+      | some x => have := (h.reg p t x hr ht).2.2.2; rw [hl] at this; cases this
+
+theorem allSettled_iff (s : St) :
+    allSettled s = true ↔ ∀ t, t < s.nTasks → ∀ x, s.tasks t = some x → settled s t x.kind = true := by
+  simp only [allSettled, List.all_eq_true, List.mem_range]
+  constructor
+  · intro h t ht x hx; have := h t ht; rw [hx] at this; exact this
+  · intro h t ht
+    cases hx : s.tasks t with
+    | none => rfl
+    | some x => exact h t ht x hx
+
+/-- `syncing` and `async_refs` are empty when nothing is queued and nothing is pending -/
+theorem inv_quiescent (c : Cfg) (s : St) (h : Inv c s none) (hq : s.ready = []) (ha : allSettled s = true) :
+    s.syncing = [] ∧ ∀ p, s.asyncRefs p = none := by
+  rw [allSettled_iff] at ha
+  have term : ∀ t x, s.tasks t = some x → x.pc.terminal = true := by
+    intro t x ht
+    exact inv_unfinished_pending c s h hq t x ht (ha t (h.tasks_lt t x ht) x ht)
+  constructor
+  · apply Decidable.byContradiction
+    intro hne
+    obtain ⟨t, x, sv, h1, h2⟩ := h.scope_open hne
+    have := term t x h1
+    rw [h2] at this; cases this
+  · intro p
+    cases hr : s.asyncRefs p with
+    | none => rfl
+    | some t =>
+      cases ht : s.tasks t with
+      | none => exact absurd ht (h.reg_some p t hr)
+      | some x =>
+        have := (h.reg p t x hr ht).2.2.1
+        rw [term t x ht] at this; cases this
 
 end ParamVerif.Async
